@@ -2,7 +2,7 @@
    Theorem for the bit-exact model of mpf_mul; the accuracy certificate that the correspondence
    check evaluates on every other function's result is characterised here.  Statements only. *)
 From Coq Require Import ZArith List Bool.
-From Mpir Require Import MpfAddDefs MpfAddProofs MpfSubDefs MpfSubProofs Word DivDefs MpfDefs MpfProofs.
+From Mpir Require Import MpfAddDefs MpfAddProofs MpfSubDefs MpfSubProofs MpfDivDefs MpfDivProofs Word DivDefs MpfDefs MpfProofs.
 Import ListNotations.
 Local Open Scope Z_scope.
 
@@ -103,6 +103,41 @@ Theorem C13_mpf_sub_sign : forall prec u v pu pv,
   1 <= prec -> mpf_wf pu u -> mpf_wf pv v -> same_sign u v -> Z.sgn (fnum (mpf_sub prec u v)) = Z.sgn (sub_num u v).
 Proof. exact mpf_sub_sign. Qed.
 Print Assumptions C13_mpf_sub_sign.
+
+
+(* ---- mpf_div, mpf_mul_ui, mpf_div_ui as coded (mpf/div.c: choice of the dividend length by padding / chopping, truncating division,
+   strip of a zero high quotient limb; mpf/mul_ui.c: the carry-in from the dropped low limbs and its ripple; mpf/div_ui.c),
+   bit-exact models MpfDivDefs.v: well formed, truncation toward zero, within 2^(-p) of the exact result, exact exactly when
+   nothing non-zero is lost; a zero divisor is the DIVIDE_BY_ZERO trap (None) ---- *)
+Theorem C13_mpf_div_accurate : forall prec u v pu pv, 1 <= prec -> mpf_wf pu u -> mpf_wf pv v -> fM v <> 0 ->
+  exists r, mpf_div prec u v = Some r /\ mpf_wf prec r
+    /\ Z.abs (fnum r * div_den u v) <= Z.abs (div_num u v * fden r)
+    /\ acc_ok (bits_of_prec prec + 2) (div_num u v) (div_den u v) (fnum r) (fden r) = true
+    /\ (fnum r * div_den u v = div_num u v * fden r <-> div_nothing_lost prec u v).
+Proof. exact mpf_div_accurate_sharp. Qed.
+Print Assumptions C13_mpf_div_accurate.
+
+Theorem C13_mpf_mul_ui_accurate : forall prec u k pu, 1 <= prec -> mpf_wf pu u -> 0 <= k < B ->
+  mpf_wf prec (mpf_mul_ui prec u k)
+  /\ Z.abs (fnum (mpf_mul_ui prec u k) * fden u) <= Z.abs (fnum u * k * fden (mpf_mul_ui prec u k))
+  /\ acc_ok (bits_of_prec prec + 2) (fnum u * k) (fden u) (fnum (mpf_mul_ui prec u k)) (fden (mpf_mul_ui prec u k)) = true
+  /\ (fnum (mpf_mul_ui prec u k) * fden u = fnum u * k * fden (mpf_mul_ui prec u k) <-> mul_ui_nothing_lost prec u k).
+Proof. exact mpf_mul_ui_accurate_sharp. Qed.
+Print Assumptions C13_mpf_mul_ui_accurate.
+
+(* the carry from the dropped limbs can ripple through every kept limb: ceil(B^m / k) / B^m times k is exactly 1 *)
+Theorem C13_mpf_mul_ui_ripple : forall prec m k, 1 <= prec -> prec < m -> 2 <= k < B ->
+  mpf_mul_ui prec (mkf false ((B ^ m + k - 1) / k) m 0) k = mkf false (B ^ prec) (prec + 1) 1.
+Proof. exact mpf_mul_ui_recip_family. Qed.
+Print Assumptions C13_mpf_mul_ui_ripple.
+
+Theorem C13_mpf_div_ui_accurate : forall prec u k pu, 1 <= prec -> mpf_wf pu u -> 0 < k < B ->
+  exists r, mpf_div_ui prec u k = Some r /\ mpf_wf prec r
+    /\ Z.abs (fnum r * (fden u * k)) <= Z.abs (fnum u * fden r)
+    /\ acc_ok (bits_of_prec prec + 2) (fnum u) (fden u * k) (fnum r) (fden r) = true
+    /\ (fnum r * (fden u * k) = fnum u * fden r <-> div_ui_nothing_lost prec u k).
+Proof. exact mpf_div_ui_accurate_sharp. Qed.
+Print Assumptions C13_mpf_div_ui_accurate.
 
 Example C13_nonvacuous :
   mpf_wf 3 (mkf false (B + 5) 2 1) /\ mpf_mul 2 (mkf false (B + 5) 2 1) (mkf true 3 1 1) = mkf true (3 * B + 15) 2 1
